@@ -30,7 +30,9 @@ def gen_case(rng):
     for es in g['edges']:
         for e in es:
             e.append(rng.choice(WRAPS[e[0]]))
-    g['css'] = rng.random() < 0.25      # add a plain css file and import it from the entry
+    # add a plain css file and import it from the entry: by its name, or by its name with the .css extension (a url that would
+    # become a plain-CSS @import if the file did not exist - a failing lookup must not turn it into one)
+    g['css'] = rng.choice([None, None, None, 'plain', 'plain.css', 'plain.css'])
     return g
 
 
@@ -71,7 +73,7 @@ def render(g):
         files[path] = '\n'.join(head + [body] + tail) + '\n'
     if g.get('css'):
         files['plain.css'] = '.p{x:y}\n'
-        files[g['files'][0]] += '@import "plain";\n'
+        files[g['files'][0]] += '@import "%s";\n' % (g['css'] if isinstance(g['css'], str) else 'plain')
     return files
 
 
